@@ -3,6 +3,7 @@
 import logging
 from ... import ir
 from ... import irutils
+from ...common import CompilerError
 from ...binutils import debuginfo
 from .nodes import statements, expressions, types, symbols
 
@@ -27,6 +28,7 @@ class CodeGenerator:
         self.context = None
         self.debug_db = debuginfo.DebugDb()
         self.var_map = {}
+        self.current_subroutine = None
 
     def gencode(self, unit: symbols.Program, context):
         """Generate code for a single unit"""
@@ -253,6 +255,7 @@ class CodeGenerator:
         body.
         """
         ir_function = self.var_map[subroutine]
+        self.current_subroutine = subroutine
 
         # Generate inner sub programs:
         for sym in subroutine.inner_scope:
@@ -351,6 +354,7 @@ class CodeGenerator:
         # Remove unreachable blocks from the function:
         ir_function.delete_unreachable()
         self.builder.set_function(None)
+        self.current_subroutine = None
 
     def emit_local(self, var_name, typ):
         """Emit stack allocated variable."""
@@ -442,6 +446,17 @@ class CodeGenerator:
     def gen_store(self, dest, value):
         if isinstance(dest, symbols.Variable):
             addr = self.var_map[dest]
+        elif isinstance(dest, expressions.VariableAccess) and isinstance(
+            dest.variable, symbols.Function
+        ):
+            # Assignment to the function identifier sets the result of
+            # the function whose body is being generated:
+            if dest.variable is not self.current_subroutine:
+                raise CompilerError(
+                    f"Cannot assign to function {dest.variable.name} here",
+                    dest.location,
+                )
+            addr = self.var_map[(dest.variable, "result")]
         else:
             # Evaluate destination:
             addr, lval_lvalue = self.gen_expr_code(dest)
